@@ -1072,7 +1072,11 @@ impl<'a> Pr<'a> {
                     if i > 0 {
                         self.raw(b",");
                     }
-                    let (a, b) = (*r.start(), *r.end());
+                    let (mut a, mut b) = (*r.start(), *r.end());
+                    // "two seq-number values and all values between these two regardless of order"
+                    if a != b && self.st.string_forms != 0 && self.rng.bool() {
+                        std::mem::swap(&mut a, &mut b);
+                    }
                     if a != b || (self.st.string_forms != 0 && self.rng.bool()) {
                         self.num(a as u64);
                         self.raw(b":");
